@@ -491,6 +491,19 @@ func runExec(cfg *runCfg, prop string) error {
 		if err := readJSON(cfg.Replay, &kind); err != nil {
 			return err
 		}
+		if kind.Case.Kind == "stitch-conflict" {
+			cc := &conflictCase{}
+			if err := json.Unmarshal(kind.Case.Input, cc); err != nil {
+				return err
+			}
+			cid := 0
+			conflictCases(cfg, r, sh, doc, &cid, 1, cc)
+			if err := sh.Flush(); err != nil {
+				return err
+			}
+			doc.Shards = sh.Files
+			return doc.Write(cfg.Out)
+		}
 		if kind.Case.Kind == "points" {
 			pc := &ptCase{}
 			if err := json.Unmarshal(kind.Case.Input, pc); err != nil {
@@ -650,6 +663,12 @@ func runExec(cfg *runCfg, prop string) error {
 		id++
 	}
 	if cfg.Replay == "" {
+		// two steps that deliver the same key, the later one leaving nothing to stitch into
+		nc := 24
+		if cfg.Tier == "thorough" {
+			nc = 200
+		}
+		conflictCases(cfg, rand.New(rand.NewSource(cfg.Seed+77)), sh, doc, &id, nc, nil)
 		// what the collector does with each result: the stitching functions on their own
 		pointsCases(r, sh, doc, &id, 2*n, nil)
 	}
